@@ -344,6 +344,59 @@ Theorem C06_gate_flag_refuted : exists a b c d bnds, iso2 a b c d = false /\ laz
 Proof. exact gate_flag_refuted. Qed.
 Print Assumptions C06_gate_flag_refuted.
 
+(* ---- round 3 ---- *)
+(* (transpose, dagger) through gate_TN_1D: whatever the mode and arity, the route taken
+   applies the documented operator (G / G^T / G^dagger / G^dagger) - unless the route is the
+   sub-MPO one, dagger is set and gate_nonlocal has no `dagger` parameter (nl = false) *)
+Theorem C06_route_options_sound : forall nl c ng tr dg,
+  (dispatch_1d c ng = RNonlocal -> nl = true \/ dg = false) ->
+  gate_1d_op nl c ng tr dg = spec_op tr dg.
+Proof. exact route_options_sound. Qed.
+Print Assumptions C06_route_options_sound.
+
+(* known finding gate:mps:contract=nonlocal:dagger=True:ignored - as coded (no `dagger`
+   parameter) the sub-MPO route applies G (G^T with transpose) instead of G^dagger *)
+Theorem C06_nonlocal_dagger_refuted : forall c ng tr,
+  dispatch_1d c ng = RNonlocal ->
+  gate_1d_op false c ng tr true = (if tr then OpGT else OpG) /\ gate_1d_op false c ng tr true <> spec_op tr true.
+Proof. exact nonlocal_dagger_refuted. Qed.
+Print Assumptions C06_nonlocal_dagger_refuted.
+
+(* MatrixProductOperator.gate_sandwich_with_auto_swap hands the caller's compression options
+   and ONE absorb choice (the caller's, else by site order) to every split it performs:
+   swaps towards, the split of the gated pair, swaps back *)
+Theorem C06_sandwich_auto_swap_forwards_options : forall (O : Type) i j user sb (o : O),
+  Forall (fun c => c = (sandwich_absorb_left i j user, o)) (sandwich_auto_swap_splits i j user sb o)
+  /\ length (sandwich_auto_swap_splits i j user sb o)
+     = let d := Nat.max i j - Nat.min i j - 1 in if sb then 2 * d + 1 else d + 1.
+Proof. exact sandwich_auto_swap_forwards_options. Qed.
+Print Assumptions C06_sandwich_auto_swap_forwards_options.
+
+(* lazily attached SPLIT gate ('split-gate', 'swap-split-gate'): label occurrences are those
+   of the un-split lazy gate plus the bond label twice; with a bond label that occurs nowhere
+   else the set of open labels is exactly preserved ... *)
+Theorem C06_split_gate_label_occurrences : forall sw bond tn i0 i1 x,
+  occ x (split_gate_labels sw bond tn i0 i1)
+  = occ x (gate_lazy_labels false tn [i0; i1]) + (if Nat.eqb x bond then 2 else 0).
+Proof. exact split_gate_occ. Qed.
+Print Assumptions C06_split_gate_label_occurrences.
+
+Theorem C06_split_gate_outer_preserved : forall sw bond tn i0 i1 x,
+  i0 <> i1 -> occ i0 tn = 1 -> occ i1 tn = 1 ->
+  occ bond tn = 0 -> bond <> i0 -> bond <> i1 -> ~ In bond (fresh_labels tn [i0; i1]) ->
+  is_outer (split_gate_labels sw bond tn i0 i1) x = is_outer tn x.
+Proof. exact split_gate_outer_preserved. Qed.
+Print Assumptions C06_split_gate_outer_preserved.
+
+(* ... and a FIXED bond name (the code uses "b") is refuted: a network that already has an open
+   label of that name loses it (known finding gate_inds:lazy_split_gate:outer_label_named_b) *)
+Theorem C06_split_gate_fixed_bond_refuted : forall sw bond tn i0 i1,
+  i0 <> i1 -> occ i0 tn = 1 -> occ i1 tn = 1 ->
+  occ bond tn = 1 -> bond <> i0 -> bond <> i1 ->
+  is_outer tn bond = true /\ is_outer (split_gate_labels sw bond tn i0 i1) bond = false.
+Proof. exact split_gate_fixed_bond_refuted. Qed.
+Print Assumptions C06_split_gate_fixed_bond_refuted.
+
 (* non-vacuity: CNOT-like integer gate on labels (1, 0) of a 3-tensor ring network, lazy
    network (gate tensor + relabelled tensors) vs the operator applied to the old values *)
 Example C06_example :
@@ -357,5 +410,8 @@ Example C06_example :
   dense dims lazy [0; 1; 2] = op_dense dims [a; b; c] [0; 1; 2] [1; 0] false [2; 2; 2; 2] gd
   /\ gate_lazy_labels false [[0; 3]; [3; 1; 4]; [4; 2]] [1; 0] = [[1; 0; 5; 6]; [6; 3]; [3; 5; 4]; [4; 2]]
   /\ outer (gate_lazy_labels true [[0; 3]; [3; 1; 4]; [4; 2]] [1; 0]) = [1; 0; 2]
-  /\ auto_swap_order 6 4 1 false = [0; 1; 4; 2; 3; 5] /\ ap_final (auto_swap_plan 4 1) = (2, 1).
+  /\ auto_swap_order 6 4 1 false = [0; 1; 4; 2; 3; 5] /\ ap_final (auto_swap_plan 4 1) = (2, 1)
+  /\ gate_1d_op false CAutoMps 2 true true = OpGdag /\ gate_1d_op false CAutoMps 3 false true = OpG
+  /\ sandwich_auto_swap_splits 4 1 None true 7 = [(true, 7); (true, 7); (true, 7); (true, 7); (true, 7)]
+  /\ split_gate_labels true 9 [[0; 3]; [3; 1; 4]; [4; 2]] 1 0 = [[1; 6; 9]; [9; 0; 5]; [6; 3]; [3; 5; 4]; [4; 2]].
 Proof. vm_compute. repeat split. Qed.
